@@ -346,4 +346,14 @@ func verifC06_JWT() {
 	if (fromCookie || hasAuth) && vTokenAlg == spec.Algorithm && vSigValid && vClaimsValid {
 		verifAssert(err == nil, "valid-token-accepted")
 	}
+	// the same token is presented again later: "currently valid" is decided anew every time
+	// (the token may have expired in between)
+	vClaimsValid = verifBool("claimsStillValidAtTheSecondRequest")
+	err2 := v.Validate(req)
+	if err2 == nil {
+		verifAssert(vTokenAlg == spec.Algorithm && vSigValid && vClaimsValid, "second-presentation-accepted-only-if-still-valid")
+	}
+	if err == nil && err2 != nil {
+		verifCover("token-expired-between-two-requests")
+	}
 }
